@@ -19,9 +19,12 @@ theorem asStrs_strsJ (l : List String) : (strsJ l).asStrs = some l := by
   simp only [strsJ, J.asStrs, J.asArr, Option.bind]
   exact mapM_map_some J.str J.asStr (fun _ => rfl) l
 
+theorem asScalar_toJ (v : Scalar) : J.asScalar (Scalar.toJ v) = some v := by
+  cases v <;> rfl
+
 theorem arrayspec_roundtrip (a : ArraySpec) : ArraySpec.ofJ a.toJ = some a := by
-  have hc : (a.compressor.map fun (k, v) => (k, J.num v)).mapM (fun (k, v) => v.asInt.map fun n => (k, n)) = some a.compressor :=
-    mapM_map_some _ _ (fun ⟨k, v⟩ => rfl) a.compressor
+  have hc : (a.compressor.map fun (k, v) => (k, Scalar.toJ v)).mapM (fun (k, v) => v.asScalar.map fun n => (k, n)) = some a.compressor :=
+    mapM_map_some _ _ (fun ⟨k, v⟩ => by simp only [asScalar_toJ, Option.map]) a.compressor
   cases a with
   | mk name dtype shape chunks dims descr vf comp cid filters =>
   simp only [ArraySpec.ofJ, ArraySpec.toJ, J.get, List.find?, String.reduceEq, decide_false, decide_true, Option.map,
